@@ -25,7 +25,7 @@ RULE = ("Same generated pipelines + schedules as C02 (plus slice), on the harnes
 ASSUMPTIONS = c02.ASSUMPTIONS + ["'accepted' = the emit's awaitable completed (zip documents no "
                                  "other definition)"]
 
-KINDS = c02.KINDS + ["slice"]
+KINDS = c02.KINDS + ["slice", "zip_latest", "combine_latest", "partition_unique", "collect"]
 NONBUF = set(specs.SYNC_KINDS) | {"rate_limit", "entry"}
 ONE2ONE = {"entry", "map", "filter", "pluck", "starmap", "union", "unique", "slice", "accumulate"}
 
@@ -95,6 +95,8 @@ def oracle(spec, run, pid=ID):
                     accepted += waiting.pop(e[1])
                 elif e[0] == "rec" and e[1] == i:
                     handed += 1
+                elif e[0] == "jx" and e[1] == i:
+                    handed += 1   # a failed job is disposed of, not held
                 worst = max(worst, accepted - handed)
             if worst == bound:
                 run.bound_reached = True
@@ -148,7 +150,8 @@ def oracle(spec, run, pid=ID):
 def execute(case):
     spec = case["spec"]
     cm = {int(k): m for k, m in case["cmodes"].items()}
-    run = schedule.execute(case, consumer_modes=cm)
+    jf = {int(k): set(v_) for k, v_ in case.get("jobfaults", {}).items()}
+    run = schedule.execute(case, consumer_modes=cm, faults=jf)
     run.bound_reached = False
     v = oracle(spec, run)
     ev = run.log.events
@@ -171,7 +174,46 @@ def execute(case):
 
 @st.composite
 def case_strategy(draw, tier="quick"):
-    return draw(c02.case_strategy(tier, kinds=KINDS, first=c02.ASYNC + ["slice", "map", "zip"]))
+    case = draw(c02.case_strategy(tier, kinds=KINDS, first=c02.ASYNC + ["slice", "map", "zip",
+                                                                         "zip_latest"]))
+    # now and then a mapped coroutine function fails (at the call or inside the job): the
+    # element's emit carries the exception; everything after it must still complete
+    # (only where the failure travels straight back to the emitter: below another asynchronous
+    # node a failing downstream is that node's business and not covered by C03)
+    nodes_ = case["spec"]["nodes"]
+    jobs = [i for i, nd in enumerate(nodes_) if nd["k"] == "map_async" and
+            all(nodes_[a]["k"] in specs.SYNC_KINDS + ["entry"] for a in ancestors(case["spec"], i))]
+    if jobs and draw(st.integers(0, 2)) == 0:
+        case["jobfaults"] = {str(draw(st.sampled_from(jobs))): sorted(draw(
+            st.sets(st.integers(0, 5), min_size=1, max_size=2)))}
+    return case
+
+
+@st.composite
+def join_case(draw, tier="quick"):
+    """focused shape: two entries -> zip | zip_latest | combine_latest -> [map] -> asynchronous
+    consumer; bursts on one entry before the other delivers, completions in any order"""
+    kind = draw(st.sampled_from(["zip", "zip_latest", "zip_latest", "combine_latest"]))
+    nodes = [{"k": "entry", "u": [], "p": {}, "t": "E"}, {"k": "entry", "u": [], "p": {}, "t": "E"}]
+    p = {}
+    if kind == "zip":
+        p = {"maxsize": draw(st.sampled_from([1, 2, 10])), "args": [{"n": 0}, {"n": 1}]}
+    elif kind == "combine_latest":
+        p = {"emit_on": None}
+    nodes.append({"k": kind, "u": [0, 1], "p": p, "t": ["H", ["E", "E"]]})
+    if draw(st.booleans()):
+        nodes.append({"k": "map", "u": [2], "p": {"f": "size"}, "t": "E"})
+    nodes.append({"k": "sink", "u": [len(nodes) - 1], "p": {}, "t": None})
+    spec = {"nodes": nodes, "fb": None}
+    emit = st.tuples(st.sampled_from(["emit", "emit", "pemit"]), st.integers(0, 1), st.integers(0, 5))
+    burst = st.tuples(st.integers(0, 1), st.integers(2, 4)).map(
+        lambda t: [["emit", t[0], k] for k in range(t[1])])
+    fin = st.tuples(st.just("fin"), st.just(0), st.integers(0, 3))
+    steps = draw(st.lists(st.one_of(emit.map(lambda e: [list(e)]), burst, burst,
+                                    fin.map(lambda f: [list(f)]), fin.map(lambda f: [list(f)])),
+                          min_size=3, max_size=14))
+    return {"spec": spec, "cmodes": {str(len(nodes) - 1): draw(st.sampled_from(["fut", "coro", "fut"]))},
+            "actions": [a for stp in steps for a in stp][:50]}
 
 
 # ---- threaded variant ---------------------------------------------------------------------
@@ -292,5 +334,6 @@ def execute_threaded(case):
 
 
 PARTS = [Part("schedules", case_strategy, execute, quick=1600, thorough=8000),
+         Part("joins", join_case, execute, quick=600, thorough=4000),
          Part("threaded", threaded_case, execute_threaded, quick=32, thorough=80, shards=4,
               shrink_quick=False, quick_shards=4)]
